@@ -9,7 +9,10 @@ parent defined, no cycles — any size, any depth), every simulated plug state, 
 unknown plugs included) and every set of failing hosts.
 
 Ranking: termination (done) ▸ one line per target (done) ▸ the rules, one by one, on the specification (done) ▸
-machine = rules (see the end of the file). -/
+machine = rules, for `stat`, `on` and `off`, single commands and sequences (done, section 4 — no `_partial`).
+
+Not covered by this model: `setplugs` with a bad host index and malformed hostlist ranges (`illegal hosts input`) —
+`runCmd` receives the target list already expanded; the hostlist parser has its own mirror (`Pm/HL.lean`). -/
 namespace Pm.Props.C19
 open Pm.Redfish
 
@@ -125,5 +128,94 @@ theorem C19_rule_off_parent (c : Cfg) (hw : WF c = true) (st : St) (p : Nat) (hk
 
 example : ((specPower exC exSt .off [1]).1, [0, 1, 2, 3, 4, 5, 6].map (isOn (specPower exC exSt .off [1]).2)) =
     ([.ok 1], [true, false, false, false, true, true, true]) := by decide +kernel
+
+/-! ## 3b. the rules for arbitrary target lists
+
+When the command is not refused, `specPower` is a fold over the known targets sorted by depth, each step looking at what
+was decided for the targets above.  In closed form (`powLine`, `finalOn`): the line of a known target `t` depends on its
+*blocker* — the topmost ancestor `a` whose effective status `effStat` is not on; `effStat a` is the initial `statOf a`,
+except that under `off` a co-target whose host answers counts as off (it is, or is being, switched off). -/
+
+/-- not refused: one `unknown` line per unknown target, `powLine` for each known one; the plug states are `finalOn` -/
+theorem C19_rules_closed_form (c : Cfg) (hw : WF c = true) (st : St) (cmd : Cmd) (hc : cmd ≠ .stat) (targets : List Nat)
+    (hph : specPhased c cmd targets = false) :
+    (specPower c st cmd targets).1.Perm
+      (unknownLines c targets ++ (knownT c targets).map (powLine c st cmd (knownT c targets))) ∧
+    ∀ x, isOn (specPower c st cmd targets).2 x = finalOn c st cmd (knownT c targets) (knownT c targets) x :=
+  specPower_lines hw st hc targets hph
+
+/-- `on`, any target list: each known target is judged exactly as if it were the only target (rules 2 above) -/
+theorem C19_rule_on_each (c : Cfg) (st : St) (T : List Nat) (t : Nat) :
+    powLine c st .on T t = (powerLine1 c st .on t).1 := powLine_on c st T t
+
+/-- `off`, any target list: a target below a co-target that answers (everything above that one on) is `ok` -/
+theorem C19_rule_off_parent_and_child (c : Cfg) (hw : WF c = true) (st : St) (T : List Nat) (t a : Nat)
+    (ha : a ∈ ancUp c t) (haT : a ∈ T) (hf : hostFails c a = false)
+    (habove : ∀ b ∈ ancUp c a, effStat c st .off T b = .on) :
+    powLine c st .off T t = .ok t := powLine_off_below_target hw st T ha haT hf habove
+
+/-- `off`, any target list: a target that is switched (`succeeds`: no blocker, host answers) ends off, with every
+    descendant -/
+theorem C19_rule_off_leaves_descendants_off (c : Cfg) (st : St) (T : List Nat) (t x : Nat) (ht : t ∈ T)
+    (hs : succeeds c st .off T t = true) (hx : x = t ∨ isDesc c x t = true) :
+    finalOn c st .off T T x = false := finalOn_off_below st T ht hs hx
+
+/-- `off` of blade 1, node 3 below it, and node 6 of the other tree (in closed form; `mergeSort` inside `specPower`
+    does not reduce in the kernel for more than one target): all three `ok`; 1, 3 and 6 end off, 2 stays off -/
+example : (knownT exC [3, 1, 6]).map (powLine exC exSt .off (knownT exC [3, 1, 6])) = [.ok 3, .ok 1, .ok 6] ∧
+    [0, 1, 2, 3, 4, 5, 6].map (finalOn exC exSt .off (knownT exC [3, 1, 6]) (knownT exC [3, 1, 6]))
+      = [true, false, false, false, true, true, false] := by
+  decide +kernel
+
+/-! ## 4. the machine follows the rules -/
+
+/-- the machine's and the rules' tests for "parent and child `on` together" agree -/
+theorem C19_phased_check_agrees (c : Cfg) (hw : WF c = true) (st : St) (cmd : Cmd) (targets : List Nat) :
+    phasedT c st cmd targets = specPhased c cmd targets := phased_iff hw st cmd targets
+
+/-- `stat`: the lines printed are exactly those of `specStat` (as a multiset), the plug states are untouched -/
+theorem C19_refines_stat (c : Cfg) (hw : WF c = true) (st : St) (targets : List Nat) :
+    (runCmd c st .stat targets).1.Perm (specStat c st targets) ∧ (runCmd c st .stat targets).2.1 = st :=
+  runCmd_stat hw st targets
+
+/-- `on` / `off`: the lines printed are exactly those of `specPower` (as a multiset), and every plug ends in the state
+    `specPower` says (the two association lists may list the plugs in different orders) -/
+theorem C19_refines_power (c : Cfg) (hw : WF c = true) (st : St) (cmd : Cmd) (hc : cmd ≠ .stat) (targets : List Nat) :
+    (runCmd c st cmd targets).1.Perm (specPower c st cmd targets).1 ∧
+    ∀ x, isOn (runCmd c st cmd targets).2.1 x = isOn (specPower c st cmd targets).2 x :=
+  runCmd_power hw st hc targets
+
+/-- all three commands in one statement (`specRun` = what the driver `RfMain` computes on the rules' side) -/
+theorem C19_refines (c : Cfg) (hw : WF c = true) (st : St) (cmd : Cmd) (targets : List Nat) :
+    (runCmd c st cmd targets).2.2 = true ∧
+    (runCmd c st cmd targets).1.Perm (specRun c st cmd targets).1 ∧
+    SameSt (runCmd c st cmd targets).2.1 (specRun c st cmd targets).2 :=
+  ⟨runCmd_done hw st cmd targets, runCmd_refines hw st cmd targets⟩
+
+/-- any sequence of commands, each started from the plug states the previous one left: after every command the helper is
+    back at its prompt and has printed the rules' lines; machine and rules end with the same plug states.  The two
+    sides may start from different association lists as long as they describe the same states. -/
+theorem C19_refines_sequence (c : Cfg) (hw : WF c = true) (cmds : List (Cmd × List Nat)) (sm ss : St)
+    (h : SameSt sm ss) :
+    SeqAgree (machSeq c sm cmds).1 (specSeq c ss cmds).1 ∧ SameSt (machSeq c sm cmds).2 (specSeq c ss cmds).2 :=
+  seq_refines hw cmds sm ss h
+
+/-- the rules read the plug states only through `isOn` -/
+theorem C19_rules_extensional (c : Cfg) (hw : WF c = true) (a b : St) (h : SameSt a b) (cmd : Cmd) (targets : List Nat) :
+    (specRun c a cmd targets).1 = (specRun c b cmd targets).1 ∧
+    SameSt (specRun c a cmd targets).2 (specRun c b cmd targets).2 := specRun_congr hw h cmd targets
+
+/-- non-vacuity: a sequence on the example forest — `off` of a blade and a node below it plus an unknown plug, then
+    `stat` of everything, then a refused `on`, then an `on` below the failing/off parts -/
+def exCmds : List (Cmd × List Nat) :=
+  [(.off, [3, 1, 99]), (.stat, [0, 1, 2, 3, 4, 5, 6]), (.on, [1, 3]), (.on, [3, 4, 6, 6])]
+
+example : (machSeq exC exSt exCmds).1.map (·.2) = [true, true, true, true] := by decide +kernel
+/-- the machine's lines, command by command (by the theorem: the rules' lines, up to order) -/
+example : (machSeq exC exSt exCmds).1.map (·.1) =
+    [[.unknown 99, .ok 1, .ok 3],
+     [.status 0 .on, .status 5 .on, .status 1 .off, .status 3 .off, .status 2 .off, .status 4 .off, .status 6 .on],
+     [.phased 1, .phased 3],
+     [.dep 3 .on .off 1, .dep 4 .on .off 2, .ok 6, .ok 6]] := by decide +kernel
 
 end Pm.Props.C19
